@@ -64,6 +64,7 @@ type Profile struct {
 	CodecSwarm         bool // draw the codec (default | link | pb) per run
 	CrashEnum          bool // C17: enumerate crash points over the write log
 	NoFaults           bool // source-building worlds: no fault kind enabled
+	ClockJumps         bool // ... except Lamport clock jumps
 	MemOnly            bool // messages only in in-memory forms (no store loads while building)
 	MinSteps, MaxSteps int
 }
@@ -155,6 +156,7 @@ type World struct {
 	payloadSeq   int
 	F            struct{ drop, dup, partition, crash, stall, clockjump, adderr bool }
 	Ptrs         []ptrRec
+	lastByz      *byzBatch
 	Foreign      *ipfslog.IPFSLog
 	ctx          context.Context
 	step         int
@@ -213,6 +215,9 @@ func NewWorld(r *Run, p *Profile) *World {
 		w.F.stall = r.Bool("f-stall", 1, 2)
 		w.F.clockjump = r.Bool("f-clock", 1, 2)
 		w.F.adderr = r.Bool("f-adderr", 1, 2)
+	}
+	if p.ClockJumps {
+		w.F.clockjump = true
 	}
 	if p.Check["C17"] {
 		w.installCrashMonitor()
@@ -628,7 +633,7 @@ func (w *World) doDeliver() {
 	}
 	for h := range got {
 		if _, ok := w.M.Reg[h]; !ok {
-			w.R.Harness("materialised an unknown entry %s", h)
+			w.R.Violate(w.P.Prop+":unknown-entry", "state rebuilt from %s contains entry %s, which no replica ever appended", formNames[m.form], h)
 		}
 	}
 	w.joinInto(rn, tmp, got, formNames[m.form])
